@@ -192,7 +192,7 @@ class Setup:
             check(not case["neighbours"], f"after {label}: the file holding the neighbours is gone or unreadable")
 
 
-def _run_create(setup: Setup, stream, exc_before=None, hard_exit=False):
+def _run_create(setup: Setup, stream, exc_before=None, hard_exit=False, bad_metadata=False):
     """create_cooler (ordered or unordered) on a chunk stream with an optional iterator fault."""
     import cooler
 
@@ -214,6 +214,10 @@ def _run_create(setup: Setup, stream, exc_before=None, hard_exit=False):
 
     mode = "a" if os.path.exists(setup.file) else "w"
     kw = dict(mergebuf=case["mergebuf"], max_merge=2) if case["producer"] == "unordered" else {}
+    if bad_metadata:
+        # "any other reason", in the very last step: all chunks are valid and written, then the metadata cannot be
+        # serialised (a set is not JSON)
+        kw["metadata"] = {"samples": {"a", "b"}}
     cooler.create_cooler(setup.dest_uri, gen.bins_df(case["bt"]), it(), ordered=(case["producer"] == "ordered"),
                          symmetric_upper=case["symmetric"], mode=mode, h5opts={"compression": None}, **kw)
 
@@ -368,6 +372,7 @@ def check_faults(case, ctx: Ctx):
                 one(label, k, lambda s=stream: _run_create(setup, s))
             for k in range(m + 1):
                 one(f"iter-exc@chunk{k}", k, lambda k=k: _run_create(setup, case["chunks"], exc_before=k))
+            one("final-step@after-all-chunks", m, lambda: _run_create(setup, case["chunks"], bad_metadata=True))
         else:
             for k, size in enumerate(chunk_sizes):
                 for p in range(size):
